@@ -361,8 +361,10 @@ theorem dproc_stale_silent (gen : C03.Gen) (v : C03.Srv) (r : DReq) (prev : WR)
     procDelta gen v r = some { srv := v, sent := [], calls := [] } :=
   dproc_silent_of_not_respond gen v r _ (delta_stale_nonce_silent v.st r prev herr hprev hn hstale hc)
 
-/-- **An ACK (or a spontaneous request) that re-subscribes to names already on record is silent**: the
-    request carries subscribe names, yet nothing is sent and no generator runs. -/
+/-- An ACK (or a spontaneous request) that re-subscribes to names already on record is silent: the request carries
+    subscribe names, yet nothing is sent and no generator runs.  This describes the code as it is - an OBSERVATION,
+    not a clause of the property: the delta protocol would let a server re-send the re-subscribed resources, and
+    the oracle accepts that too. -/
 theorem dproc_resubscribe_silent (gen : C03.Gen) (v : C03.Srv) (r : DReq) (prev : WR)
     (herr : r.err = none) (hprev : v.st r.ty = some prev)
     (hfresh : r.nonce = "" ∨ r.nonce = prev.nonceSent) (halways : prev.always = false)
